@@ -42,6 +42,9 @@ impl Rng {
     pub fn pick<'a, T>(&mut self, items: &'a [T]) -> &'a T {
         &items[self.below(items.len() as u64) as usize]
     }
+    pub fn pick_string(&mut self, items: &[String]) -> String {
+        items[self.below(items.len() as u64) as usize].clone()
+    }
     /// A word biased towards the boundary values the properties name.
     pub fn boundary_word(&mut self) -> u16 {
         const B: [u16; 10] = [0, 1, 2, 0x7FFF, 0x8000, 0xFFFF, 0xFFFE, 0x00FF, 0x0100, 0x8001];
